@@ -473,6 +473,7 @@ def jWorkspace (j : Json) : M Workspace := do
     | [k, v] =>
       let kind ← jStr (← jField v "kind")
       if kind == "data" then pure (← jStr k, Entry.data (← jObj (← jField v "obj")))
+      else if kind == "raw" then pure (← jStr k, Entry.raw)
       else pure (← jStr k, Entry.dict (← jKV (← jField v "kv")))
     | _ => throw "bad ws entry")
 
@@ -519,7 +520,8 @@ def loadedJ : Loaded → Json
   | .single o => Json.mkObj [("single", objOutJ o)]
   | .ws w => Json.mkObj [("ws", Json.mkObj (w.map (fun p => (p.1, match p.2 with
       | .data o => Json.mkObj [("kind", "data"), ("obj", objOutJ o)]
-      | .dict kv => Json.mkObj [("kind", "dict"), ("kv", kvObjJ pyJ kv)]))))]
+      | .dict kv => Json.mkObj [("kind", "dict"), ("kv", kvObjJ pyJ kv)]
+      | .raw => Json.mkObj [("kind", "raw")]))))]
 
 open Dnp.H5 in
 def diskJ : Disk → Json
